@@ -37,6 +37,9 @@ CHECKS={
  "C11":dict(tech="runtime monitoring: independent readers of the three emitted syntaxes (SVG path data, PDF path operators, PostScript incl. ellipse/ellipsen) compared parametrically with the source; hostile-input robustness runs of ParseSVGPath/ParseSVG under recover and watchdog",
    text="Generated builder paths are printed with String/ToSVG/ToPDF/ToPS at Precision 8 and 4; the output is read back by independent reference readers (and by ParseSVGPath) and compared with the source at 9 parameters per segment within the precision of the number formats. ParseSVGPath and ParseSVG are fed grammar-based, mutated, whitespace-only, long and random inputs and must return a value or an error without panicking or hanging.",
    note="trusted: harness/refsyn readers (SVG 1.1 path grammar, PDF 32000-1 path operators, Red Book arc/arcn + the PS renderer's ellipse procedures); arc tolerances include the conditioning of the end-point parametrisation (rx/ry)/sqrt(1-lambda)", ref="DESIGN.md §5 C11"),
+ "C17":dict(tech="runtime monitoring: exhaustive reference model (all legal breakings of small instances evaluated from the Knuth-Plass definitions) compared with text.Linebreak",
+   text="text.Linebreak is run on generated box/glue/penalty sequences with at most 16 legal breakpoints; an independent brute-force search enumerates every legal breaking and the result is checked for legality, forced breaks, completeness, reported widths/ratios, feasibility within [-1,Tolerance], minimal demerits, minimal relaxation of the tolerance and correct overflow reporting.",
+   note="trusted: harness/refkp (definitions of the 1981 paper with the library's documented conventions); looseness 0; instances small enough to enumerate", ref="DESIGN.md §5 C17"),
 }
 NA_REASON="monitor not built yet (work in progress; see DESIGN.md §5)"
 m={"version":1,"setup_cmd":"./run.sh setup",
